@@ -5,6 +5,7 @@ import Splipy.Lemmas.C12Stages
 import Splipy.Lemmas.C12Curve
 import Splipy.Lemmas.C12Raise
 import Splipy.Lemmas.C12Direction
+import Splipy.Lemmas.C05RaisesTo
 import Splipy.Lemmas.C12Examples
 import Mathlib.Data.Rat.Floor
 import Mathlib.Tactic.NormNum
@@ -353,8 +354,9 @@ Proved without hypotheses: `reparam` (C06), the insertion passes and their geome
 (`C12.insertKnots_sameMap`: C04's fibre statement lifted to the tensor-product sum through
 `C12.toTP_eval_fibre`), and the whole statement when the two orders are equal.
 
-`_partial`: when the orders differ, the one missing ingredient is `RaisesTo` for the object of lower
-order (`H_raise₁/₂`, needed only then): `raise_order(p - p_j, direction=i)` succeeds, gives the clamped
+`_partial`: when the orders differ, the one remaining ingredient is `RaisesTo` for the object of lower
+order (`H_raise₁/₂`, needed only then; discharged for curves in `C12_open_curves` and, by
+`Lemmas/C05RaisesTo.lean`, for surfaces and volumes in `C12_open_surfaces` / `C12_open_volumes`): `raise_order(p - p_j, direction=i)` succeeds, gives the clamped
 basis of order `p` with the present multiplicities raised by `p - p_j`, leaves the other bases alone and
 keeps the evaluated map.  For curves this is a theorem (`C12.raisesTo_curve` ⇒ `C12_open_curves`).
 For `m ≥ 2` it is what property C05 does not yet provide: `raise_order_implicit` re-interpolates ALL
@@ -392,6 +394,104 @@ theorem C12_open_direction_partial {m : ℕ} (tol : K) (htol : 0 < tol) (c1 c2 :
     hre1.1.trans_same hs1, hre2.1.trans_same hs2⟩
   have hne : (k : ℕ) ≠ (i : ℕ) := fun e => hk' (Fin.ext e)
   exact ⟨((hk k hk').1).trans (hod1.basis_ne k hne), ((hk k hk').2).trans (hod2.basis_ne k hne)⟩
+
+/-- **One clamped direction `i` of two SURFACES of DIFFERENT orders — no hypothesis on the geometry of
+the called methods.**  As `C12_open_direction_partial` with `m = 2` and both objects not `Curve`s, the
+`RaisesTo` hypotheses discharged by property C05 (`C12.raisesTo_surface`, `Lemmas/C05RaisesTo.lean`):
+direction `i` continuous (`m_j ≤ p_j - 1`) with distinct values more than `2·(max p₁ p₂ - 1)·tol` apart.
+Because `raise_order` re-interpolates EVERY direction (also the untouched ones), two side conditions
+on the pair `a` after `reparam` remain, needed only for an object whose order is actually raised and
+both about the model not raising an exception rather than about geometry:
+* `GrevilleOK tol (a.j.basis k)` for the other directions `k ≠ i` — the Greville collocation matrix
+  there is invertible (`np.linalg.inv` does not raise `LinAlgError`); proved for clamped continuous
+  bases by `C12.grevilleOK_clamped`, any valid basis is accepted, periodic ones included;
+* `raiseGuard tol a.j.bases = ok true` — the guard of `raise_order` does not raise; automatic when
+  direction 0 is clamped (`raiseGuard_clamped`) or periodic (`C12.raiseGuard_periodic`).
+Conclusion: `make_splines_identical(direction=i)` succeeds, both objects get the same basis in
+direction `i` (order `max p₁ p₂`, union knot vector), all other bases are unchanged and both objects are
+exact rescalings `u_i ↦ (u_i - start_i)/(end_i - start_i)` of their inputs. -/
+theorem C12_open_surfaces (tol : K) (htol : 0 < tol) (p1 p2 : ℕ) (hp1 : 2 ≤ p1) (hp2 : 2 ≤ p2) (x0 xl : K)
+    (L : List (K × ℕ × ℕ)) (hm : ∀ e ∈ L, e.2.1 ≤ p1 - 1 ∧ e.2.2 ≤ p2 - 1)
+    (hgap : Separated (2 * ((max p1 p2 - 1 : ℕ) : K) * tol) (clampedU x0 xl (L.map (·.1))))
+    (i : Fin 2) (s a : Obj K × Obj K) (hw1 : C06.WF s.1 2) (hw2 : C06.WF s.2 2)
+    (ha : stageReparam s i = .ok a)
+    (hb1 : a.1.basis i = openBasis p1 (clampedU x0 xl (L.map (·.1))) (clampedM p1 (L.map (·.2.1))))
+    (hb2 : a.2.basis i = openBasis p2 (clampedU x0 xl (L.map (·.1))) (clampedM p2 (L.map (·.2.2))))
+    (hother₁ : p1 < max p1 p2 → ∀ k : Fin 2, k ≠ i → GrevilleOK tol (a.1.basis k))
+    (hother₂ : p2 < max p1 p2 → ∀ k : Fin 2, k ≠ i → GrevilleOK tol (a.2.basis k))
+    (hguard₁ : p1 < max p1 p2 → Obj.raiseGuard tol a.1.bases.toList = .ok true)
+    (hguard₂ : p2 < max p1 p2 → Obj.raiseGuard tol a.2.bases.toList = .ok true) :
+    ∃ r, identicalDir tol false false s i = .ok r
+      ∧ r.1.basis i = openBasis (max p1 p2) (clampedU x0 xl (L.map (·.1)))
+          (clampedM (max p1 p2) (L.map (fun e =>
+            max (raisedMult (max p1 p2 - p1) e.2.1) (raisedMult (max p1 p2 - p2) e.2.2))))
+      ∧ r.2.basis i = r.1.basis i
+      ∧ (∀ k : Fin 2, k ≠ i → r.1.basis k = s.1.basis k ∧ r.2.basis k = s.2.basis k)
+      ∧ Rescaled 2 i (s.1.basis i).start (s.1.basis i).stop s.1 r.1
+      ∧ Rescaled 2 i (s.2.basis i).start (s.2.basis i).stop s.2 r.2 := by
+  obtain ⟨_, _, ha1, ha2⟩ := stageReparam_ok ha
+  have hwa1 := (reparam_rescaled hw1 i ha1).2.1
+  have hwa2 := (reparam_rescaled hw2 i ha2).2.1
+  have hfac : tol ≤ 2 * ((max p1 p2 - 1 : ℕ) : K) * tol := by
+    have h1 : (1 : K) ≤ ((max p1 p2 - 1 : ℕ) : K) := by
+      have : 1 ≤ max p1 p2 - 1 := by have := le_max_left p1 p2; omega
+      exact_mod_cast this
+    nlinarith
+  exact C12_open_direction_partial tol htol false false p1 p2 hp1 hp2 x0 xl L (separated_mono hfac hgap) i
+    (by have := i.isLt; omega) s a hw1 hw2 ha hb1 hb2
+    (fun h => raisesTo_surface tol htol i p1 (max p1 p2) hp1 (le_max_left _ _) x0 xl L (·.1) (·.2.1)
+      (fun e he => (hm e he).1) hgap a.1 hwa1 hb1 (hother₁ h) (hguard₁ h))
+    (fun h => raisesTo_surface tol htol i p2 (max p1 p2) hp2 (le_max_right _ _) x0 xl L (·.1) (·.2.2)
+      (fun e he => (hm e he).2) hgap a.2 hwa2 hb2 (hother₂ h) (hguard₂ h))
+
+/-- **One clamped direction `i` of two VOLUMES of DIFFERENT orders — no hypothesis on the geometry of
+the called methods.**  As `C12_open_direction_partial` with `m = 3` and both objects not `Curve`s, the
+`RaisesTo` hypotheses discharged by property C05 (`C12.raisesTo_volume`, `Lemmas/C05RaisesTo.lean`):
+direction `i` continuous (`m_j ≤ p_j - 1`) with distinct values more than `2·(max p₁ p₂ - 1)·tol` apart.
+Because `raise_order` re-interpolates EVERY direction (also the untouched ones), two side conditions
+on the pair `a` after `reparam` remain, needed only for an object whose order is actually raised and
+both about the model not raising an exception rather than about geometry:
+* `GrevilleOK tol (a.j.basis k)` for the other directions `k ≠ i` — the Greville collocation matrix
+  there is invertible (`np.linalg.inv` does not raise `LinAlgError`); proved for clamped continuous
+  bases by `C12.grevilleOK_clamped`, any valid basis is accepted, periodic ones included;
+* `raiseGuard tol a.j.bases = ok true` — the guard of `raise_order` does not raise; automatic when
+  direction 0 is clamped (`raiseGuard_clamped`) or periodic (`C12.raiseGuard_periodic`).
+Conclusion: `make_splines_identical(direction=i)` succeeds, both objects get the same basis in
+direction `i` (order `max p₁ p₂`, union knot vector), all other bases are unchanged and both objects are
+exact rescalings `u_i ↦ (u_i - start_i)/(end_i - start_i)` of their inputs. -/
+theorem C12_open_volumes (tol : K) (htol : 0 < tol) (p1 p2 : ℕ) (hp1 : 2 ≤ p1) (hp2 : 2 ≤ p2) (x0 xl : K)
+    (L : List (K × ℕ × ℕ)) (hm : ∀ e ∈ L, e.2.1 ≤ p1 - 1 ∧ e.2.2 ≤ p2 - 1)
+    (hgap : Separated (2 * ((max p1 p2 - 1 : ℕ) : K) * tol) (clampedU x0 xl (L.map (·.1))))
+    (i : Fin 3) (s a : Obj K × Obj K) (hw1 : C06.WF s.1 3) (hw2 : C06.WF s.2 3)
+    (ha : stageReparam s i = .ok a)
+    (hb1 : a.1.basis i = openBasis p1 (clampedU x0 xl (L.map (·.1))) (clampedM p1 (L.map (·.2.1))))
+    (hb2 : a.2.basis i = openBasis p2 (clampedU x0 xl (L.map (·.1))) (clampedM p2 (L.map (·.2.2))))
+    (hother₁ : p1 < max p1 p2 → ∀ k : Fin 3, k ≠ i → GrevilleOK tol (a.1.basis k))
+    (hother₂ : p2 < max p1 p2 → ∀ k : Fin 3, k ≠ i → GrevilleOK tol (a.2.basis k))
+    (hguard₁ : p1 < max p1 p2 → Obj.raiseGuard tol a.1.bases.toList = .ok true)
+    (hguard₂ : p2 < max p1 p2 → Obj.raiseGuard tol a.2.bases.toList = .ok true) :
+    ∃ r, identicalDir tol false false s i = .ok r
+      ∧ r.1.basis i = openBasis (max p1 p2) (clampedU x0 xl (L.map (·.1)))
+          (clampedM (max p1 p2) (L.map (fun e =>
+            max (raisedMult (max p1 p2 - p1) e.2.1) (raisedMult (max p1 p2 - p2) e.2.2))))
+      ∧ r.2.basis i = r.1.basis i
+      ∧ (∀ k : Fin 3, k ≠ i → r.1.basis k = s.1.basis k ∧ r.2.basis k = s.2.basis k)
+      ∧ Rescaled 3 i (s.1.basis i).start (s.1.basis i).stop s.1 r.1
+      ∧ Rescaled 3 i (s.2.basis i).start (s.2.basis i).stop s.2 r.2 := by
+  obtain ⟨_, _, ha1, ha2⟩ := stageReparam_ok ha
+  have hwa1 := (reparam_rescaled hw1 i ha1).2.1
+  have hwa2 := (reparam_rescaled hw2 i ha2).2.1
+  have hfac : tol ≤ 2 * ((max p1 p2 - 1 : ℕ) : K) * tol := by
+    have h1 : (1 : K) ≤ ((max p1 p2 - 1 : ℕ) : K) := by
+      have : 1 ≤ max p1 p2 - 1 := by have := le_max_left p1 p2; omega
+      exact_mod_cast this
+    nlinarith
+  exact C12_open_direction_partial tol htol false false p1 p2 hp1 hp2 x0 xl L (separated_mono hfac hgap) i
+    (by have := i.isLt; omega) s a hw1 hw2 ha hb1 hb2
+    (fun h => raisesTo_volume tol htol i p1 (max p1 p2) hp1 (le_max_left _ _) x0 xl L (·.1) (·.2.1)
+      (fun e he => (hm e he).1) hgap a.1 hwa1 hb1 (hother₁ h) (hguard₁ h))
+    (fun h => raisesTo_volume tol htol i p2 (max p1 p2) hp2 (le_max_right _ _) x0 xl L (·.1) (·.2.2)
+      (fun e he => (hm e he).2) hgap a.2 hwa2 hb2 (hother₂ h) (hguard₂ h))
 
 /-! ## Directions -/
 
@@ -593,6 +693,44 @@ example : ∃ r, identicalDir exTol false false (exSA, exSB) 0 = .ok r
       (clampedM (max 2 2) ([((1 : ℚ)/2, 1, 0)].map (fun e =>
         max (raisedMult (max 2 2 - 2) e.2.1) (raisedMult (max 2 2 - 2) e.2.2)))) := h2
   rw [h2']; decide +kernel
+
+/-- `C12_open_surfaces` on the same two surfaces in direction `v`, where the orders DIFFER (2 against
+    3): surface A is elevated (its untouched `u` basis `0,0,1,2,2` is `GrevilleOK`, the guard holds since
+    `u` is clamped), both end with order 3 on `0,0,0,1,1,1`, the `u` bases are untouched, both are exact
+    rescalings. -/
+example : ∃ r, identicalDir exTol false false (exSA, exSB) 1 = .ok r
+    ∧ (r.1.basis 1).order = 3 ∧ (r.1.basis 1).knots = #[0, 0, 0, 1, 1, 1] ∧ r.2.basis 1 = r.1.basis 1
+    ∧ r.1.basis 0 = exSu0 ∧ r.2.basis 0 = exSv0
+    ∧ Rescaled 2 1 (exSA.basis 1).start (exSA.basis 1).stop exSA r.1
+    ∧ Rescaled 2 1 (exSB.basis 1).start (exSB.basis 1).stop exSB r.2 := by
+  obtain ⟨ha, hb1, hb2, hu, hl⟩ := exS_reparam_v
+  have htol : (0 : ℚ) < exTol := by norm_num [exTol]
+  have hgap : Separated (2 * ((max 2 3 - 1 : ℕ) : ℚ) * exTol) (clampedU (0 : ℚ) 1 (([] : List (ℚ × ℕ × ℕ)).map (·.1))) := by
+    simp [Separated, clampedU, exTol]; norm_num
+  have hG : GrevilleOK exTol (exSA.basis 0) := by
+    rw [hu]
+    exact grevilleOK_clamped exTol htol 1 (by norm_num) 0 2 [1] [1] rfl (by simp)
+      (by simp [Separated, clampedU, exTol]; norm_num)
+  have hguard : Obj.raiseGuard exTol exSA.bases.toList = .ok true := by
+    rw [hl]
+    exact raiseGuard_clamped exTol htol 2 (by norm_num) 0 2 [1] [1] rfl
+      (by simp [Separated, clampedU, exTol]; norm_num) (by simp) _
+  obtain ⟨r, h1, h2, h3, h4, h5, h6⟩ := C12_open_surfaces exTol htol 2 3 (by norm_num) (by norm_num) 0 1 []
+    (by simp) hgap 1 (exSA, exSB) (exSA, exSB) exSA_wf exSB_wf ha hb1 hb2
+    (fun _ k hk => by
+      have : k = 0 := by
+        rcases k with ⟨_ | _ | n, hn⟩
+        · rfl
+        · exact absurd rfl hk
+        · omega
+      subst this; exact hG)
+    (fun h => absurd h (by decide)) (fun _ => hguard) (fun h => absurd h (by decide))
+  have h2' : r.1.basis 1 = openBasis (max 2 3) (clampedU (0 : ℚ) 1 (([] : List (ℚ × ℕ × ℕ)).map (·.1)))
+      (clampedM (max 2 3) (([] : List (ℚ × ℕ × ℕ)).map (fun e =>
+        max (raisedMult (max 2 3 - 2) e.2.1) (raisedMult (max 2 3 - 3) e.2.2)))) := h2
+  refine ⟨r, h1, ?_, ?_, h3, (h4 0 (by decide)).1, (h4 0 (by decide)).2, h5, h6⟩
+  · rw [h2']; rfl
+  · rw [h2']; decide +kernel
 
 /-- `C12_directions`: for these curves the explicit directions `0`, `'u'`, `'U'` are the same call,
     `'v'` is a `ValueError`, and `direction=None` is the one-step loop. -/
